@@ -3,6 +3,8 @@
 package cl
 
 import (
+	"math/big"
+
 	"github.com/ohler55/slip"
 )
 
@@ -17,9 +19,9 @@ func init() {
 			Name: "gcd",
 			Args: []*slip.DocArg{
 				{Name: "&rest"},
-				{Name: "integers", Type: "fixnum"},
+				{Name: "integers", Type: "integer"},
 			},
-			Return: "fixnum",
+			Return: "integer",
 			Text:   `__gcd__ returns the greatest common divisor of _integers_.`,
 			Examples: []string{
 				"(gcd) => 0",
@@ -36,27 +38,24 @@ type Gcd struct {
 
 // Call the function with the arguments provided.
 func (f *Gcd) Call(s *slip.Scope, args slip.List, depth int) slip.Object {
-	z := slip.Fixnum(0)
-	for i, a := range args {
-		num, ok := a.(slip.Fixnum)
-		if !ok {
-			slip.TypePanic(s, depth, "integers", a, "fixnum")
-		}
-		if num < 0 {
-			num = -num
-		}
-		if i == 0 { // first one
-			z = num
-		} else {
-			z = gcd(z, num)
-		}
+	var z big.Int
+	for _, a := range args {
+		// The result of GCD is never negative.
+		_ = z.GCD(nil, nil, &z, integerArg(s, depth, a))
 	}
-	return z
+	return reduceInteger(&z)
 }
 
-func gcd(x, y slip.Fixnum) slip.Fixnum {
-	for y != 0 {
-		x, y = y, x%y
+// integerArg returns the value of a fixnum or bignum argument of gcd or lcm
+// and raises a type-error for anything else. The value must not be modified.
+func integerArg(s *slip.Scope, depth int, a slip.Object) (bi *big.Int) {
+	switch ta := a.(type) {
+	case slip.Fixnum:
+		bi = big.NewInt(int64(ta))
+	case *slip.Bignum:
+		bi = (*big.Int)(ta)
+	default:
+		slip.TypePanic(s, depth, "integers", a, "integer")
 	}
-	return x
+	return
 }
